@@ -23,7 +23,10 @@ RULE = ('schedules of 2-3 threads, each running 1-4 public operations (BeartypeC
         'construction, is_bearable / die_if_unbearable, is_subhint, decoration + call, hook registration + lookup) on '
         'hints, classes, configurations and package names created fresh for the schedule (so every cache fill really '
         'races) and partly shared between the threads; a seeded cooperative scheduler switches threads at LINE events '
-        'inside beartype (random walk with switch probability p, and runs with d in {1,2,3} fixed change points); '
+        'inside beartype (random walk with switch probability p; runs with d in {1,2,3} fixed change points; runs that '
+        'preempt where a pooled scratch object is acquired or released and let the other thread run whole operations '
+        'there); pooled dict / list / set containers are instances of checking subclasses that record any access by a '
+        'thread that is not the current holder; '
         'beartype\'s locks are scheduler-aware shims; oracles: no exception, no logical deadlock, results equal to the '
         'analytically known sequential results, one shared object per equal configuration / hashable hint, every '
         'registration visible, pooled scratch objects owned by one operation at a time; distinct by switch trace digest; '
@@ -41,24 +44,81 @@ class PoolMonitor:
         self.owned = {}
         self.problems = []
         self.acquires = 0
+        self.releases = 0
         self.mutex = threading.Lock()
         mon = self
         orig_acq, orig_rel = KeyPool.acquire, KeyPool.release
 
+        # ---- ownership sanitizer for the pooled builtin containers ---------------------------------
+        # The typed instance pool hands out dict / list / set scratch containers.  Here it hands out instances of
+        # subclasses whose methods check that the calling thread is the current holder (set at acquire, cleared at
+        # release): "this object is not safely accessible after calling release_instance()" is the pool's own
+        # contract, and an access by a thread that no longer holds the object is state another operation may own.
+        self.stale_uses = []
+        self.guarded_accesses = 0
+
+        def guard(base, name):
+            orig = getattr(base, name)
+
+            def method(self_, *a, **k):
+                mon.guarded_accesses += 1
+                if self_._v_holder != threading.get_ident():
+                    f = sys._getframe(1)
+                    where = f'{os.path.basename(f.f_code.co_filename)}:{f.f_code.co_name}'
+                    mon.stale_uses.append((where, f'{base.__name__}.{name}() at {where} line {f.f_lineno} by thread '
+                                           f'{threading.get_ident()} while the pooled {base.__name__} is '
+                                           + ('in the pool (released)' if self_._v_holder is None else f'held by thread {self_._v_holder}')))
+                return orig(self_, *a, **k)
+            method.__name__ = name
+            return method
+        common = ['__contains__', '__iter__', '__len__', 'clear', 'copy', 'pop']
+        per_type = {
+            dict: common + ['__getitem__', '__setitem__', '__delitem__', 'get', 'keys', 'values', 'items', 'popitem', 'setdefault', 'update'],
+            list: common + ['__getitem__', '__setitem__', '__delitem__', 'append', 'extend', 'insert', 'remove', 'index', 'count',
+                            'sort', 'reverse', '__add__', '__iadd__', '__reversed__'],
+            set: common + ['add', 'discard', 'remove', 'update', 'union', 'intersection', 'difference', '__or__', '__ior__', '__and__', '__sub__'],
+        }
+        self.pooled_types = {}
+        for base, names in per_type.items():
+            ns = {n: guard(base, n) for n in names}
+            ns['_v_holder'] = None
+            self.pooled_types[base] = type('Pooled' + base.__name__.capitalize(), (base,), ns)
+        self.base_of = {v: k for k, v in self.pooled_types.items()}
+        from beartype._util.cache.pool import utilcachepoolinstance as _upi
+        ipool = _upi._instance_pool
+        ipool._pool_item_maker = lambda cls, _m=ipool._pool_item_maker: (mon.pooled_types[cls]() if cls in mon.pooled_types else _m(cls))
+        for base in per_type:
+            ipool._key_to_pool[base].clear()          # plain containers pooled during the warm-up
+
         def acquire(pool, *a, **k):
             item = orig_acq(pool, *a, **k)
+            if type(item) in mon.base_of:
+                item._v_holder = threading.get_ident()
             with mon.mutex:
                 mon.acquires += 1
                 if id(item) in mon.owned:
                     mon.problems.append(f'{type(item).__name__} handed out to thread {threading.get_ident()} while still owned by {mon.owned[id(item)]}')
                 mon.owned[id(item)] = threading.get_ident()
+            s = sched.CURRENT
+            if s is not None:
+                s.event_point('pool-acquire')
             return item
 
         def release(pool, *a, **k):
             item = k.get('item', a[0] if a else None)        # KeyPool.release(item, key)
             with mon.mutex:
                 mon.owned.pop(id(item), None)
-            return orig_rel(pool, *a, **k)
+                mon.releases += 1
+            if type(item) in mon.base_of:
+                # back under the key it is acquired by (release_instance() keys by obj.__class__)
+                item._v_holder = None
+                a, k = (item, mon.base_of[type(item)]), {}
+            r = orig_rel(pool, *a, **k)
+            # ownership just changed hands: the adversarial moment for a holder that keeps using the object
+            s = sched.CURRENT
+            if s is not None:
+                s.event_point('pool-release')
+            return r
         KeyPool.acquire, KeyPool.release = acquire, release
         # beartype binds the pool methods early (module globals such as
         # `_instance_pool_acquire = _instance_pool.acquire`): rebind those globals too
@@ -93,14 +153,26 @@ def make_ops(rng, tag):
         return ('typehint', lambda: TypeHint(h), 'identity:' + repr(h))
 
     def op_bearable():
-        kind = rng.choice(('list', 'dict', 'opt', 'union', 'tuple'))
-        hint, good, bad = {
-            'list': (list[Fresh], [Fresh()], [Other()]),
-            'dict': (dict[str, Fresh], {'a': Fresh()}, {'a': 1}),
-            'opt': (typing.Optional[Fresh], None, Other()),
-            'union': (typing.Union[Fresh, list[Fresh]], [Fresh()], [1]),
-            'tuple': (tuple[Fresh, int], (Fresh(), 1), (Fresh(), 'x')),
-        }[kind]
+        U, M = typing.Union, Fresh
+        table = {
+            'list': (list[M], [M()], [Other()]),
+            'dict': (dict[str, M], {'a': M()}, {'a': 1}),
+            'opt': (typing.Optional[M], None, Other()),
+            'union': (U[M, list[M]], [M()], [1]),
+            'tuple': (tuple[M, int], (M(), 1), (M(), 'x')),
+            # unions of every make: class + PEP children, PEP children only, nested in containers and in each other
+            # (the union code generator is the heaviest user of pooled scratch dicts and lists)
+            'union-class-pep': (U[int, list[M]], [M()], 'x'),
+            'union-pep-only': (U[list[M], dict[str, M]], {'a': M()}, (M(),)),
+            'nested-union-pep-only': (tuple[list[M], U[list[M], dict[str, M]]], ([M()], {'a': M()}), ([M()], 'junk')),
+            'nested-union-pep-only-2': (dict[str, U[list[M], tuple[M, ...]]], {'k': (M(),)}, {'k': M()}),
+            'list-of-union': (list[U[M, list[M]]], [[M()]], [[1]]),
+            'optional-and-union-in-tuple': (tuple[typing.Optional[M], U[set[M], frozenset[M], list[M]]], (None, [M()]), (None, 3)),
+            'union-of-containers-of-unions': (U[list[U[M, int]], dict[str, U[M, str]]], {'a': 'b'}, {'a': 1}),
+            'second-item-union': (tuple[list[M], U[list[M], tuple[M, ...]]], ([M()], (M(),)), ([M()], M())),
+        }
+        kind = rng.choice(sorted(table))
+        hint, good, bad = table[kind]
         use_good = rng.random() < .5
         return ('is_bearable:' + kind, lambda: is_bearable(good if use_good else bad, hint), ('equals', use_good))
 
@@ -121,14 +193,17 @@ def make_ops(rng, tag):
 
     def op_decor():
         use_good = rng.random() < .5
-        hint = rng.choice((list[Fresh], typing.Optional[Fresh], dict[str, Fresh]))
+        goods = {list[Fresh]: [Fresh()], typing.Optional[Fresh]: None, dict[str, Fresh]: {'k': Fresh()},
+                 typing.Union[int, list[Fresh]]: [Fresh()],
+                 tuple[list[Fresh], typing.Union[list[Fresh], dict[str, Fresh]]]: ([Fresh()], {'k': Fresh()})}
+        hint = rng.choice(sorted(goods, key=repr))
 
         def f():
             def g(a):
                 return a
             g.__annotations__ = {'a': hint, 'return': hint}
             w = beartype.beartype(g)
-            arg = {list[Fresh]: [Fresh()], typing.Optional[Fresh]: None, dict[str, Fresh]: {'k': Fresh()}}[hint] if use_good else 3
+            arg = goods[hint] if use_good else 3.5
             try:
                 w(arg)
                 return True
@@ -251,9 +326,13 @@ def main():
     for idx in W.cases('sched', limit, frac=.85):
         rng = W.rng('sched', idx)
         programs, catalog = make_ops(rng, f'{W.k}x{idx}')
-        mode = rng.choice(('walk', 'walk', 'pct'))
+        mode = rng.choice(('walk', 'walk', 'pct', 'event', 'event'))
         if mode == 'walk':
             s = sched.Scheduler(rng.getrandbits(32), switch_prob=rng.choice((0.02, 0.08, 0.25)))
+        elif mode == 'event':
+            # preempt where a pooled object changes hands and let the other thread run whole operations there
+            s = sched.Scheduler(rng.getrandbits(32), switch_prob=rng.choice((0.0, 0.0, 0.01)),
+                                event_prob=rng.choice((0.1, 0.3, 0.6)))
         else:
             d = rng.choice((1, 2, 3))
             s = sched.Scheduler(rng.getrandbits(32), change_points={rng.randrange(1, 4000) for _ in range(d)})
@@ -263,6 +342,9 @@ def main():
         W.count('yield_points', res['steps'])
         W.count('context_switches', res['switches'])
         W.count('lock_handoffs', res['lock_handoffs'])
+        W.count('schedules.' + mode)
+        W.count('pool_events_seen_by_scheduler', res['events_seen'])
+        W.count('switches_at_pool_events', res['event_switches'])
         for c in catalog:
             W.add('operations', c.split(':')[0])
         W.evaluate(res['trace_digest'] if res['switches'] > 0 else None)
@@ -275,8 +357,14 @@ def main():
         if pool_mon.problems:
             W.violation('pooled-object-shared', pool_mon.problems[0], 'sched', idx, wit)
             continue
+        if pool_mon.stale_uses:
+            where, what = pool_mon.stale_uses[0]
+            pool_mon.stale_uses.clear()
+            W.violation('pooled-object-used-by-non-holder:' + where, what, 'sched', idx, wit)
+            continue
         judge(W, 'sched', idx, programs, res, wit)
     W.count('pool_acquires_observed', pool_mon.acquires)
+    W.count('pooled_container_accesses_checked_for_holder', pool_mon.guarded_accesses)
     W.count('shim_lock_acquisitions', sum(s_.acquisitions for s_ in sched.SHIMS.values()))
 
     # ---- free-running stress: the real OS scheduler ------------------------------------------------------
@@ -300,6 +388,11 @@ def main():
         W.count('stress_runs')
         W.evaluate(None)
         res = dict(results=results, errors=errors, deadlock=None, hung=[i for i, t in enumerate(ts) if t.is_alive()])
+        if pool_mon.stale_uses:
+            where, what = pool_mon.stale_uses[0]
+            pool_mon.stale_uses.clear()
+            W.violation('pooled-object-used-by-non-holder:' + where, what, 'stress', idx, dict(mode='free-running'))
+            continue
         judge(W, 'stress', idx, programs, res, dict(mode='free-running', programs=[[o[0] for o in p] for p in programs[:3]]))
 
     W.need('schedules', 100)
@@ -310,6 +403,8 @@ def main():
     W.need('lock_shims_installed', 3)
     W.need('shim_lock_acquisitions', 100)
     W.need('pool_acquires_observed', 100)
+    W.need('switches_at_pool_events', 50)
+    W.need('pooled_container_accesses_checked_for_holder', 1000)
     W.need('stress_runs', 20)
     W.finish()
 
